@@ -261,7 +261,8 @@ impl Watch {
         let id = WATCH_ID.fetch_add(1, std::sync::atomic::Ordering::Relaxed);
         // the description is only rendered for every 64th case (cheap enough, and a hang that
         // reproduces is found again); others carry the part name only
-        let text = if id % 64 == 0 { describe().chars().take(1500).collect() } else { String::new() };
+        // (the termination check of C18 records every case: a stuck case is its finding)
+        let text = if id % 64 == 0 || part == "fixpoint" { describe().chars().take(20_000).collect() } else { String::new() };
         let map = WATCHED.get_or_init(|| {
             std::thread::spawn(watchdog);
             Mutex::new(BTreeMap::new())
@@ -284,6 +285,25 @@ fn watchdog() {
     loop {
         std::thread::sleep(std::time::Duration::from_secs(5));
         if let Some(m) = WATCHED.get() {
+            // C18's termination part: a case that has been running for two minutes is confirmed through the
+            // real binary under a time limit; a run that does not finish there either is the violation
+            let suspect = m.lock().unwrap().values().find(|(t, p, _)| *p == "fixpoint" && t.elapsed().as_secs() > 120).cloned();
+            if let Some((_, _, text)) = suspect {
+                if let Some(message) = crate::checks::c18::confirm_nontermination(&text) {
+                    let root = std::env::var("VERIF_ROOT").unwrap_or_else(|_| ".".into());
+                    let dir = std::path::Path::new(&root).join("target").join("replays").join("C18");
+                    let _ = std::fs::create_dir_all(&dir);
+                    let case: Value = serde_json::from_str(&text).unwrap_or(Value::Null);
+                    let body = json!({"property": "C18", "part": "fixpoint", "signature": "does-not-terminate", "message": message, "case": case});
+                    let body = serde_json::to_string_pretty(&body).unwrap();
+                    let path = dir.join(format!("{:016x}.json", hash64(&body)));
+                    let _ = std::fs::write(&path, &body);
+                    println!("{message}");
+                    println!("signature: does-not-terminate");
+                    println!("VIOLATION property=C18 replay={}", path.display());
+                    std::process::exit(1);
+                }
+            }
             let stuck = m.lock().unwrap().values().find(|(t, _, _)| t.elapsed().as_secs() > limit).cloned();
             if let Some((t, part, text)) = stuck {
                 eprintln!(
